@@ -32,6 +32,7 @@ pub fn stack() -> (r: bool) ensures r == stack_spec() { unimplemented!() }
 
 verus! {
 //@include common.rs
+//@include arith_spec.rs
 //@include step_spec.rs
 
 //@item src/runtime.rs const USER_MEMORY_END
@@ -48,6 +49,10 @@ spec fn flag_cc(f: RunFlag) -> u16 {
 spec fn view(s: RunState) -> MState {
     MState { reg: s.reg@, mem: s.mem@, pc: s.pc, cc: flag_cc(s.flag), orig: s.orig, psr: s._psr }
 }
+
+/// RTI's `todo!()`: the one panic the property list excludes; modelled as divergence (never returns)
+#[verifier::external_body]
+fn verif_todo_rti() -> ! { unimplemented!() }
 
 /// I/O: one input character (value outside the contract)
 #[verifier::external_body]
@@ -124,7 +129,8 @@ impl RunState {
         ensures mstate_eq(view(*final(self)), step_not(view(*old(self)), instr)),
 //@end
 //@fn src/runtime.rs "impl RunState" rti props=C02
-        requires false,   // RTI is `todo!()`: outside the claim; execute() carries `instr >> 12 != 8`
+//@sub <<<verif_unreachable()>>> ==> <<<verif_todo_rti()>>>
+        ensures false,   // RTI is `todo!()` (documented as unimplemented, outside the claim): accepted as divergence only here
 //@end
 //@fn src/runtime.rs "impl RunState" st props=C02
         ensures mstate_eq(view(*final(self)), step_st(view(*old(self)), instr)),
